@@ -72,6 +72,7 @@ class Trace:
         self.terminals = []   # (method, call term, path tuple)
         self.seen = set()
         self.argidx = {}      # id(call term) -> index of the argument that carries the iterator
+        self.adapter_terms = {}   # path tuple -> [(adaptor name, call term)]
 
     def run(self, local, path=()):
         if (local, path) in self.seen or len(path) > 12:
@@ -95,6 +96,7 @@ class Trace:
                 m = p.rsplit("::", 1)[-1] if p else "<indirect>"
                 if m in ADAPTERS or m in POSITIONAL:
                     if not o["dest"]["p"]:
+                        self.adapter_terms[path + (m,)] = self.adapter_terms.get(path, []) + [(m, o)]
                         self.run(o["dest"]["l"], path + (m,))
                 elif m in ("deref", "deref_mut", "borrow", "borrow_mut", "as_ref", "as_mut", "clone", "from", "into") and not o["dest"]["p"]:
                     self.run(o["dest"]["l"], path)
@@ -209,6 +211,62 @@ def _display_owned(lib, b):
     return True
 
 
+def keys_preserved(lib, b, start, adaptors):
+    """None when every entry handed to the target map carries the key of a source HashMap entry unchanged; else the reason"""
+    if start is None:
+        return "the source container is not visible here"
+    src = (start.term.get("arg_tys") or [""])[0]
+    if "HashMap<" not in src and "hash_map::" not in src:
+        return "the source is not a map (its elements need not have distinct keys in the target)"
+    for m, o in adaptors:
+        if m in ("cloned", "copied", "into_iter", "by_ref", "peekable", "fuse", "inspect", "filter", "take_while", "skip_while"):
+            continue
+        if m != "map":
+            return "entries pass through %s" % m
+        names, _ = closure_callees(lib, b, o)
+        cb = lib.body(names[0]) if len(names) == 1 else None
+        if cb is None:
+            return "the mapping function cannot be read"
+        if not _key_is_arg_key(cb):
+            return "the mapping closure does not return the source key as the key"
+    return None
+
+
+def _key_is_arg_key(cb):
+    """the closure returns a tuple whose field 0 is (a clone of) field 0 of its argument (_2)"""
+    # every pair the closure builds (returned directly or inside Some / Ok)
+    roots = [s["rv"]["ops"][0] for _, s in cb.assigns()
+             if not s["place"]["p"] and s["rv"]["k"] == "agg" and s["rv"].get("agg") == "tuple" and len(s["rv"]["ops"]) == 2]
+    if not roots:
+        return False
+
+    def from_arg_key(o, depth=0):
+        if depth > 8 or not isinstance(o, dict) or o.get("k") not in ("copy", "move"):
+            return False
+        proj = [e for e in o.get("p", []) if e["k"] != "deref"]
+        if o["l"] == 2:
+            return len(proj) == 1 and proj[0]["k"] == "field" and proj[0]["i"] == 0
+        if proj:
+            return False
+        ds = cb.def_sites(o["l"])
+        if len(ds) != 1:
+            return False
+        d = ds[0]
+        if d[1] == "assign":
+            rv = d[2]["rv"]
+            if rv["k"] in ("use", "cast"):
+                return from_arg_key(rv["o"], depth + 1)
+            if rv["k"] in ("ref", "copyderef"):
+                return from_arg_key({"k": "copy", "l": rv["place"]["l"], "p": rv["place"]["p"]}, depth + 1)
+            return False
+        if d[1] == "call":
+            nm = d[2]["func"].get("fn", {}).get("path", "").rsplit("::", 1)[-1]
+            if nm in ("clone", "deref", "borrow", "as_ref", "to_owned", "into", "from"):
+                return from_arg_key(d[2]["args"][0], depth + 1)
+        return False
+    return all(from_arg_key(r) for r in roots)
+
+
 def judge_site(lib, b, start, table, display_exempt=True):
     """Returns (class, detail). class in insensitive/display/table/sensitive."""
     if start.dest["p"]:
@@ -251,9 +309,16 @@ def _judge(lib, b, local, start, head, table, display_exempt, depth):
             if m == "extend":
                 tys = o.get("arg_tys", [])[:1]
             inner = re.sub(r"^(std::option::Option|std::result::Result)<", "", tys[0]) if tys else ""
-            if inner.startswith(("std::collections::HashMap<", "std::collections::HashSet<", "&mut std::collections::HashSet<",
-                                 "&mut std::collections::HashMap<", "variable::struct_type::StructType", "variable::multi_type::MultiType",
+            if inner.startswith(("std::collections::HashSet<", "&mut std::collections::HashSet<", "variable::multi_type::MultiType")):
+                continue        # a set: inserting equal elements in any order gives the same set
+            if inner.startswith(("std::collections::HashMap<", "&mut std::collections::HashMap<", "variable::struct_type::StructType",
                                  "&mut instruction::local_variable::LocalVariables")):
+                # a map: the last entry written for a key wins, so the entries must arrive with distinct keys - the keys of the
+                # source map, unchanged
+                why = keys_preserved(lib, b, start, tr.adapter_terms.get(path, []))
+                if why is None:
+                    continue
+                bad.append("%s into a map: %s (an entry written twice is decided by hash order)" % (m, why))
                 continue
             if m == "collect" and start is not None and sorted_before_use(b, start):
                 continue        # collected, then sorted before anything looks at it
